@@ -22,6 +22,18 @@ pub(crate) const NAME: &str = env!("CARGO_BIN_NAME");
 pub(crate) const VERSION: &str = env!("CARGO_PKG_VERSION");
 pub(crate) const AUTHOR: &str = env!("CARGO_PKG_AUTHORS");
 
+/// Parses an output precision.
+///
+/// The standard formatting machinery panics on precisions above `u16::MAX`, so larger values are
+/// rejected when parsing the command line.
+pub(crate) fn parse_precision(s: &str) -> Result<usize, String> {
+    match s.parse::<usize>() {
+        Ok(precision) if precision <= usize::from(u16::MAX) => Ok(precision),
+        Ok(_) => Err(format!("precision must be at most {}", u16::MAX)),
+        Err(e) => Err(e.to_string()),
+    }
+}
+
 /// Tools for working with site frequency spectra.
 #[derive(Debug, Parser)]
 #[clap(name = NAME, author = AUTHOR, version = VERSION, about)]
